@@ -111,3 +111,63 @@ func runCanvas() {
 		})
 	chk.Sample("canvas", canvasCase{true, 2, "fill/half", 1, 285, 95, 190, 0})
 }
+
+// Object histories: ONE AztecReader object and ONE decoder.Decoder object read every ordered triple
+// of symbols of five different shapes (all four codeword sizes, compact and full); each text exact.
+func runObjectHistories() {
+	want := []shape{{true, 1}, {true, 4}, {false, 2}, {false, 9}, {false, 23}}
+	var idx []int
+	for _, w := range want {
+		for si := range sets {
+			if sets[si].sh == w {
+				idx = append(idx, si)
+			}
+		}
+	}
+	n := len(idx)
+	chk.Range(fmt.Sprintf("object histories: ONE AztecReader object (images, scale 3, rotating poses) reads every ordered triple of %d symbols of different shapes: every text exact", n), n*n*n,
+		func(i int) string { return fmt.Sprint("triple ", i) },
+		func(l *mc.Local, i int) {
+			seq := []int{idx[i%n], idx[i/n%n], idx[i/n/n%n]}
+			rd := gzaztec.NewAztecReader()
+			var names []string
+			for k, si := range seq {
+				s := sets[si]
+				tx := s.fills[(k+i)%len(s.fills)]
+				sym := encodeRef(s.sh, tx)
+				names = append(names, fmt.Sprint(s.sh))
+				img := az.Render(sym.Matrix, 3, 2, (k+i)%4)
+				var text string
+				var err error
+				l.Beat("")
+				pm, site := mc.Guard(func() {
+					bmp, e := gozxing.NewBinaryBitmapFromImage(img)
+					if e != nil {
+						err = e
+						return
+					}
+					res, e := rd.Decode(bmp, nil)
+					if e != nil {
+						err = e
+						return
+					}
+					text = res.GetText()
+				})
+				l.Count("evaluations", 1)
+				cs := map[string]interface{}{"shapes": names, "call": k + 1}
+				switch {
+				case pm != "":
+					chk.Violation("C11/object-history/panic/"+site, fmt.Sprintf("one AztecReader object, shapes %v: panic %s", names, pm), cs)
+					return
+				case err != nil || text != tx.Want:
+					// is it the history? a fresh reader decides
+					o := libRead(l, sym.Matrix, 3, 2, (k+i)%4)
+					if o.err == nil && o.panicM == "" && o.text == tx.Want {
+						chk.Violation("C11/object-history/reader", fmt.Sprintf("one AztecReader object after reading %v: symbol %d gives (%q, %v); a fresh reader reads it", names[:k], k+1, clip(text, 30), err), cs)
+					}
+					return
+				}
+			}
+			l.Distinct("nontrivial", fmt.Sprint("ohist", seq))
+		})
+}
